@@ -67,7 +67,8 @@ _NAME_PATS = (u"%s%d", u"%s%d with: colon", u"", u"%s%d  two  spaces",
               u"%s%d # hash @at |pipe <x>")
 _TAG_PATS = ((u"t%d",), (u"a%d", u"b.c-%d", u"k:v=%d"), (u"wip", u"ü%d"), (u"x#y%d", u"slow%d"))
 _DESC_PATS = ((u"(d%d) As a user: I want x", u"so that | y # z @w"),
-              (u"%d. first  line", u"<second> \"line\" 'x'"))
+              (u"%d. first  line", u"<second> \"line\" 'x'"),
+              (u"Scenario without colon %d", u"Examples and Background info", u"Rule of thumb: none"))
 _STEP_PATS = (u"step %d", u"a <x> param %d", u"say \"hi\" %d:", u"Given nested keyword %d",
               u"%d | pipe # hash @at", u"ünï %d")
 _TABLES = (
@@ -733,7 +734,7 @@ def run_trees(tier, rng):
         for doc in gen_docs(4, bodies=("", "g", "gT"), heads=("F",)):
             if len(doc.split()) == 5:
                 yield eval_doc({"doc": doc, "layout": "dense"})
-    n = 6000 if tier == "quick" else 40000
+    n = 6000 if tier == "quick" else 100000
     for _ in range(n):
         case = {"doc": random_doc(rng), "layout": "noisy:%d" % rng.randrange(100000)}
         if rng.random() < 0.3:
@@ -844,7 +845,7 @@ def eval_i18n(case, tmpdir=None):
                               lambda got: [obs_step(s) for s in got])
     else:
         tree = build_doc(script, simple=True)
-        text, exp = render(tree, "canon", lang, choice, header=(via in ("header", "file")))
+        text, exp = render(tree, case.get("layout", "canon"), lang, choice, header=(via in ("header", "file")))
         if via == "arg":
             ok, detail = _verdict(lambda: bparser.parse_feature(text, language=lang, filename=u"f.feature"),
                                   exp, obs_feature, links=True)
@@ -886,6 +887,7 @@ def run_i18n(tier, rng):
                         yield eval_i18n({"lang": lang, "kind": kind, "alias": n, "via": via})
             for via in ("arg", "header", "file", "steps"):
                 yield eval_i18n({"lang": lang, "via": via}, tmpdir)
+            yield eval_i18n({"lang": lang, "via": "header", "layout": "noisy:%d" % (len(lang) + len(kws["feature"]))})
     finally:
         shutil.rmtree(tmpdir, ignore_errors=True)
 
@@ -1230,7 +1232,7 @@ CHECKS = [
             "thorough": "exhaustive: every well-formed document with <= 3 elements below the Feature line (same "
                         "element alphabet as quick) x 3 layouts (canonical, dense, one random noisy seed per "
                         "document); plus all documents with exactly 4 elements over the bodies {empty, 1 step, "
-                        "step+table} with header F, dense layout; plus 40000 random documents of 4..9 elements in "
+                        "step+table} with header F, dense layout; plus 100000 random documents of 4..9 elements in "
                         "one random noisy layout each (sampled)"},
         run=run_trees, replay=_replay(eval_doc),
         contract="forall script d, layout L: (text, exp) = Writer(L).feature(build_doc(d)) ==> "
@@ -1263,7 +1265,8 @@ CHECKS = [
                      "parse_feature of the text with a '# language: xx' first line; per language also the full "
                      "document %s (all kinds incl. '*', first aliases) via language=, via header, via parse_file "
                      "on a UTF-8 file with the header, and parse_steps(text, language=xx) on the step list %s "
-                     "('*' replaced by And in the two languages that list no '*': en-tx, sl)"
+                     "('*' replaced by And in the two languages that list no '*': en-tx, sl); per language the full "
+                     "document once more in one noisy layout via the header"
                      % (I18N_BLOCK_DOC, I18N_STEP_DOCS["and"], I18N_FULL_DOC, I18N_STEPS),
             "thorough": "same as quick (the space is finite and enumerated completely)"},
         run=run_i18n, replay=_replay(eval_i18n),
